@@ -6,7 +6,7 @@ from .shapes import (IntS, RealS, BoolS, ValS, StrS, BytesS, NoneS, OptS, RefS, 
                      lift, Val)
 from .core import (World, VExc, PyExc, Unsupported, ContractError, PathEnd, VFunc, VClass,
                    VExternal, PyList, coerce, box)
-from .contracts import Contract, Lemma, prove
+from .contracts import Contract, Lemma, prove, Forall
 from .evalexpr import as_arith
 
 
